@@ -196,6 +196,13 @@ def Spec.identifyPeaks (s : Spec) (flat : List Rat) (baseline cutoff : Rat) :
       | none => .error "IndexError"
       | some fr => .ok (rs, fr)
 
+/-- `ps._exclude_range(ps.identify_peaks(model_fun, …))`: the ranges `identify_peaks` reports handed to the exclusion
+    (what they are for) -/
+def Spec.excludePeaks (s : Spec) (flat : List Rat) (baseline cutoff : Rat) : Except String Spec :=
+  match s.identifyPeaks flat baseline cutoff with
+  | .error e => .error e
+  | .ok (_, fr) => .ok (s.excludeRange fr)
+
 /-- `calculate_power_spectrum` after the raw spectrum has been computed:
     `in_range(*fit_range)._exclude_range(excluded).downsampled_by(k)`. -/
 def Spec.pipeline (s : Spec) (lo hi : Rat) (ranges : List (Rat × Rat)) (k : Nat) : Spec :=
@@ -365,6 +372,7 @@ def showFP (s : Spec) : String := showRatList s.freq ++ " " ++ showRatList s.pow
   `c10.binwidth fs tsu nppb`             → rational
   `c10.withspec n m nppb`                → `nppb` or `ValueError`
   `c10.peaks nppb baseline cutoff [flat…] [f…]` → `[i:j,…] [lo:hi,…]` or an exception name
+  `c10.peaksexclude nppb baseline cutoff [flat…] [f…] [p…]` → `[f…] [p…]` (identify_peaks, then _exclude_range of its answer)
   `c10.chain nppb fitlo fithi [f…] [p…] step…` (steps `i:lo:hi`, `e:[lo:hi,…]`, `b:k`) → `[f…] [p…] nppb fitlo fithi [excluded…]`
   `c10.initial fs(rat) fs(double) ws|N n k` → `tsu nppb binwidth binwidth-after-block-k fitlo fithi` -/
 def handle : List String → Option String
@@ -426,6 +434,14 @@ def handle : List String → Option String
     match (mkSpec f flat nppb).identifyPeaks flat baseline cutoff with
     | .error e => some e
     | .ok (rs, fr) => some (showNatPairs rs ++ " " ++ showRatPairs fr)
+  | ["c10.peaksexclude", nppb, baseline, cutoff, flat, f, p] => do
+    let nppb ← nat? nppb
+    let baseline ← rat? baseline; let cutoff ← rat? cutoff
+    let flat ← ratList? flat; let f ← ratList? f; let p ← ratList? p
+    if f.length ≠ flat.length ∨ f.length ≠ p.length then none
+    match (mkSpec f p nppb).excludePeaks flat baseline cutoff with
+    | .error e => some e
+    | .ok s => some (showFP s)
   | "c10.chain" :: nppb :: flo :: fhi :: f :: p :: steps => do
     let nppb ← nat? nppb; let flo ← rat? flo; let fhi ← rat? fhi
     let f ← ratList? f; let p ← ratList? p
